@@ -36,3 +36,32 @@ func TestKnown(t *testing.T) {
 	}
 	t.Logf("%d zones loadable, %d (zone, day) pairs without local midnight", z, n)
 }
+
+func TestGaps(t *testing.T) {
+	g := Gaps("America/New_York")
+	found := false
+	for _, x := range g {
+		if x.Y == 2024 && x.M == 3 && x.D == 10 {
+			found = true
+			if x.H != 2 || x.Mi != 0 || x.Len != 3600 {
+				t.Fatalf("unexpected gap %+v", x)
+			}
+			loc := Load("America/New_York")
+			if y, mo, d, h, mi, s := x.At(1800); CivilExists(loc, y, mo, d, h, mi, s) {
+				t.Fatalf("02:30 exists?")
+			}
+			if y, mo, d, h, mi, s := x.At(-1); !CivilExists(loc, y, mo, d, h, mi, s) {
+				t.Fatalf("01:59:59 does not exist?")
+			}
+			if y, mo, d, h, mi, s := x.At(x.Len); !CivilExists(loc, y, mo, d, h, mi, s) {
+				t.Fatalf("03:00:00 does not exist?")
+			}
+		}
+	}
+	if !found {
+		t.Fatal("no gap on 2024-03-10 in America/New_York")
+	}
+	if len(Gaps("UTC")) != 0 {
+		t.Fatal("UTC has gaps")
+	}
+}
